@@ -1,0 +1,424 @@
+//! Verification hooks (compiled only with `--cfg kaspar030_laze_verif`).
+//!
+//! - `oracle_main()`: when `LAZE_VERIF_ORACLE` is set, laze reads one JSON request per
+//!   line from stdin and answers with one JSON line, calling the real functions
+//!   in-process (each request inside `catch_unwind`).
+//! - `fault(point)`: `LAZE_VERIF_FAULT=<point>=abort|exit1|pause:<path>` stops the
+//!   process at a named point of `Generator::execute`.
+//! - `dump(value)`: when `LAZE_VERIF_DUMP=<file>` is set, appends one JSON line.
+
+use std::io::{BufRead, Write};
+
+use serde_json::{json, Value};
+
+use crate::model::{BlockAllow, Context, ContextBag};
+use crate::nested_env::{self, Env, EnvKey, Eval, IfMissing, MergeOption};
+
+pub fn fault(point: &str) {
+    if let Ok(trace) = std::env::var("LAZE_VERIF_TRACE") {
+        if let Ok(mut f) = std::fs::OpenOptions::new()
+            .create(true)
+            .append(true)
+            .open(trace)
+        {
+            let _ = writeln!(f, "{point}");
+        }
+    }
+    let spec = match std::env::var("LAZE_VERIF_FAULT") {
+        Ok(spec) => spec,
+        Err(_) => return,
+    };
+    let (at, action) = match spec.split_once('=') {
+        Some(x) => x,
+        None => return,
+    };
+    if at != point {
+        return;
+    }
+    if action == "abort" {
+        // die without running destructors (unflushed buffers are lost)
+        unsafe { libc_abort() }
+    } else if action == "exit1" {
+        std::process::exit(1);
+    } else if let Some(path) = action.strip_prefix("pause:") {
+        let _ = std::fs::write(format!("{path}.reached"), b"");
+        let go = format!("{path}.go");
+        for _ in 0..20000 {
+            if std::path::Path::new(&go).exists() {
+                break;
+            }
+            std::thread::sleep(std::time::Duration::from_millis(1));
+        }
+    }
+}
+
+unsafe fn libc_abort() -> ! {
+    extern "C" {
+        fn _exit(code: i32) -> !;
+    }
+    _exit(134)
+}
+
+pub fn dump_enabled() -> bool {
+    std::env::var_os("LAZE_VERIF_DUMP").is_some()
+}
+
+pub fn dump(value: Value) {
+    if let Ok(path) = std::env::var("LAZE_VERIF_DUMP") {
+        if let Ok(mut f) = std::fs::OpenOptions::new()
+            .create(true)
+            .append(true)
+            .open(path)
+        {
+            let mut line = value.to_string();
+            line.push('\n');
+            let _ = f.write_all(line.as_bytes());
+        }
+    }
+}
+
+pub fn dep_json(dep: &crate::Dependency<String>) -> Value {
+    use crate::Dependency::*;
+    match dep {
+        Hard(n) => json!(["h", n]),
+        Soft(n) => json!(["s", n]),
+        IfThenHard(c, n) => json!(["ih", c, n]),
+        IfThenSoft(c, n) => json!(["is", c, n]),
+    }
+}
+
+pub fn flat_json(env: &im::HashMap<&String, String>) -> Value {
+    let mut pairs: Vec<(&String, &String)> = env.iter().map(|(k, v)| (*k, v)).collect();
+    pairs.sort();
+    Value::Array(pairs.iter().map(|(k, v)| json!([k, v])).collect())
+}
+
+pub fn env_json(env: &Env) -> Value {
+    // Env serializes (flattened) as a map name -> string | [string]
+    let v = serde_json::to_value(env).unwrap_or(Value::Null);
+    match v {
+        Value::Object(map) => {
+            let mut pairs: Vec<(String, Value)> = map.into_iter().collect();
+            pairs.sort_by(|a, b| a.0.cmp(&b.0));
+            Value::Array(pairs.into_iter().map(|(k, v)| json!([k, v])).collect())
+        }
+        other => other,
+    }
+}
+
+fn env_from_pairs(v: Option<&Value>) -> Env {
+    let mut env = Env::new();
+    if let Some(Value::Array(pairs)) = v {
+        for p in pairs {
+            if let (Some(k), Some(val)) = (p.get(0).and_then(|x| x.as_str()), p.get(1)) {
+                match val {
+                    Value::String(s) => {
+                        env.insert(k.to_string(), EnvKey::Single(s.clone()));
+                    }
+                    Value::Array(l) => {
+                        env.insert(
+                            k.to_string(),
+                            EnvKey::List(
+                                l.iter()
+                                    .filter_map(|x| x.as_str().map(|s| s.to_string()))
+                                    .collect(),
+                            ),
+                        );
+                    }
+                    _ => {}
+                }
+            }
+        }
+    }
+    env
+}
+
+fn if_missing(req: &Value) -> IfMissing {
+    match req.get("pol").and_then(|x| x.as_str()) {
+        Some("error") => IfMissing::Error,
+        Some("empty") => IfMissing::Empty,
+        _ => IfMissing::Ignore,
+    }
+}
+
+fn expand_err_json(e: nested_env::ExpandErrorV) -> Value {
+    use nested_env::ExpandErrorV::*;
+    match e {
+        Missing(k) => json!({"err": "missing", "k": k}),
+        Unclosed(p) => json!({"err": "unclosed", "p": p}),
+        Cycle(k) => json!({"err": "cycle", "k": k}),
+        Expr(e) => json!({"err": "expr", "msg": e.to_string()}),
+    }
+}
+
+fn handle(req: &Value) -> Value {
+    let op = req.get("op").and_then(|x| x.as_str()).unwrap_or("");
+    match op {
+        "expand" | "expand_eval" => {
+            let s = req.get("s").and_then(|x| x.as_str()).unwrap_or("");
+            let keys: Vec<(String, String)> = req
+                .get("vars")
+                .and_then(|x| x.as_array())
+                .map(|a| {
+                    a.iter()
+                        .filter_map(|kv| {
+                            Some((
+                                kv.get(0)?.as_str()?.to_string(),
+                                kv.get(1)?.as_str()?.to_string(),
+                            ))
+                        })
+                        .collect()
+                })
+                .unwrap_or_default();
+            let mut map: im::HashMap<&String, String> = im::HashMap::new();
+            for (k, v) in &keys {
+                // first binding wins (the model's association-list lookup)
+                if !map.contains_key(k) {
+                    map.insert(k, v.clone());
+                }
+            }
+            let res = if op == "expand" {
+                nested_env::expand(s, &map, if_missing(req))
+            } else {
+                nested_env::expand_eval(s, &map, if_missing(req))
+            };
+            match res {
+                Ok(r) => json!({"ok": r}),
+                Err(e) => expand_err_json(e),
+            }
+        }
+        "eval" => {
+            let s = req
+                .get("s")
+                .and_then(|x| x.as_str())
+                .unwrap_or("")
+                .to_string();
+            match s.eval() {
+                Ok(r) => json!({"ok": r}),
+                Err(e) => json!({"err": "expr", "msg": e.to_string()}),
+            }
+        }
+        "evalexpr" => {
+            let s = req.get("s").and_then(|x| x.as_str()).unwrap_or("");
+            match evalexpr::eval(s) {
+                Ok(v) => json!({"ok": v.to_string()}),
+                Err(e) => json!({"err": "expr", "msg": e.to_string()}),
+            }
+        }
+        "flatten_opts" => {
+            // {"env": [[k, v|[..]]], "opts": {k: {joiner:..,..}} | null}
+            let env = env_from_pairs(req.get("env"));
+            let opts: Option<im::HashMap<String, MergeOption>> = match req.get("opts") {
+                Some(Value::Null) | None => None,
+                Some(v) => match serde_json::from_value(v.clone()) {
+                    Ok(o) => Some(o),
+                    Err(e) => return json!({"bad": e.to_string()}),
+                },
+            };
+            let res = match env.flatten_with_opts_option(opts.as_ref()) {
+                Ok(flat) => json!({"ok": flat_json(&flat)}),
+                Err(e) => json!({"err": "flatten", "msg": format!("{e:#}")}),
+            };
+            res
+        }
+        "env_merge" => {
+            // {"layers": [env, env, ...]} merged left to right
+            let mut acc = Env::new();
+            if let Some(Value::Array(layers)) = req.get("layers") {
+                for l in layers {
+                    acc.merge(&env_from_pairs(Some(l)));
+                }
+            }
+            json!({"ok": env_json(&acc)})
+        }
+        "env_assign" => {
+            let mut env = Env::new();
+            if let Some(Value::Array(assignments)) = req.get("assignments") {
+                for a in assignments {
+                    if let Err(e) = env.assign_from_string(a.as_str().unwrap_or("")) {
+                        return json!({"err": "assign", "msg": e.to_string()});
+                    }
+                }
+            }
+            json!({"ok": env_json(&env)})
+        }
+        "is_allowed" => {
+            // {"parents": [null|idx,...] (context i is named "c<i>"), "ctx": idx,
+            //  "block": null|[names], "allow": null|[names]}
+            let mut bag = ContextBag::new();
+            let parents: Vec<Option<usize>> = req
+                .get("parents")
+                .and_then(|x| x.as_array())
+                .map(|a| a.iter().map(|p| p.as_u64().map(|p| p as usize)).collect())
+                .unwrap_or_default();
+            for (i, p) in parents.iter().enumerate() {
+                let c = Context::new(format!("c{i}"), p.map(|p| format!("c{p}")));
+                if bag.add_context_or_builder(c, true).is_err() {
+                    return json!({"bad": "dup"});
+                }
+            }
+            for (i, p) in parents.iter().enumerate() {
+                bag.contexts[i].parent_index = *p;
+            }
+            let list = |k: &str| -> Option<Vec<String>> {
+                req.get(k).and_then(|x| x.as_array()).map(|a| {
+                    a.iter()
+                        .filter_map(|s| s.as_str().map(|s| s.to_string()))
+                        .collect()
+                })
+            };
+            let ctx = req.get("ctx").and_then(|x| x.as_u64()).unwrap_or(0) as usize;
+            let res = bag.is_allowed(&bag.contexts[ctx], &list("block"), &list("allow"));
+            match res {
+                BlockAllow::Allowed => json!({"ok": "allowed"}),
+                BlockAllow::AllowedBy(i) => json!({"ok": "allowed", "by": i}),
+                BlockAllow::Blocked => json!({"ok": "blocked"}),
+                BlockAllow::BlockedBy(i) => json!({"ok": "blocked", "by": i}),
+            }
+        }
+        "dep_from_string" => {
+            let s = req
+                .get("s")
+                .and_then(|x| x.as_str())
+                .unwrap_or("")
+                .to_string();
+            json!({"ok": dep_json(&crate::data::dependency_from_string(&s))})
+        }
+        _ => json!({"bad": "unknown op"}),
+    }
+}
+
+/// returns true if the oracle loop ran (the caller must then exit)
+pub fn oracle_main() -> bool {
+    if std::env::var_os("LAZE_VERIF_ORACLE").is_none() {
+        return false;
+    }
+    std::panic::set_hook(Box::new(|_| {}));
+    let stdin = std::io::stdin();
+    let stdout = std::io::stdout();
+    let mut out = std::io::BufWriter::new(stdout.lock());
+    for line in stdin.lock().lines() {
+        let line = match line {
+            Ok(l) => l,
+            Err(_) => break,
+        };
+        if line.trim().is_empty() {
+            continue;
+        }
+        let answer = match serde_json::from_str::<Value>(&line) {
+            Ok(req) => match std::panic::catch_unwind(|| handle(&req)) {
+                Ok(v) => v,
+                Err(_) => json!({"panic": true}),
+            },
+            Err(e) => json!({"bad": e.to_string()}),
+        };
+        let _ = writeln!(out, "{answer}");
+        let _ = out.flush();
+    }
+    true
+}
+
+pub fn dump_nobuild(builder: &str, app: &crate::Module, decision: &str) {
+    if !dump_enabled() {
+        return;
+    }
+    dump(json!({
+        "builder": builder,
+        "app": app.name,
+        "app_context": app.context_name,
+        "decision": decision,
+    }));
+}
+
+fn module_json(m: &crate::Module) -> Value {
+    json!({
+        "name": m.name,
+        "context": m.context_name,
+        "selects": m.selects.iter().map(dep_json).collect::<Vec<_>>(),
+        "imports": m.imports.iter().map(dep_json).collect::<Vec<_>>(),
+        "provides": m.provides,
+        "conflicts": m.conflicts,
+        "sources": m.sources,
+        "sources_optional": m.sources_optional,
+        "srcdir": m.srcdir,
+        "relpath": m.relpath,
+        "is_build_dep": m.is_build_dep,
+        "is_global_build_dep": m.is_global_build_dep,
+        "build_dep_files": m.build_dep_files,
+        "has_build": m.build.is_some(),
+        "has_download": m.download.is_some(),
+        "notify_all": m.notify_all,
+        "env_local": env_json(&m.env_local),
+        "env_export": env_json(&m.env_export),
+        "env_global": env_json(&m.env_global),
+    })
+}
+
+#[allow(clippy::too_many_arguments, clippy::type_complexity)]
+pub fn dump_build(
+    builder: &Context,
+    app: &crate::Module,
+    build_context: &Context,
+    disabled: &indexmap::IndexSet<String>,
+    modules: &indexmap::IndexMap<
+        &String,
+        (
+            &crate::Module,
+            Env,
+            Option<indexmap::IndexSet<&crate::Module>>,
+        ),
+    >,
+    merge_opts: Option<&im::HashMap<String, MergeOption>>,
+    global_flat: &im::HashMap<&String, String>,
+    outfile: &str,
+    tasks: &indexmap::IndexMap<String, Result<crate::Task, crate::TaskError>>,
+) {
+    if !dump_enabled() {
+        return;
+    }
+    let mut provided: Vec<(String, Vec<String>)> = build_context
+        .provided
+        .as_ref()
+        .map(|p| {
+            p.iter()
+                .map(|(k, v)| (k.clone(), v.iter().cloned().collect()))
+                .collect()
+        })
+        .unwrap_or_default();
+    provided.sort();
+    let mods: Vec<Value> = modules
+        .iter()
+        .map(|(_, (m, env, build_deps))| {
+            let mut j = module_json(m);
+            let flat = match env.flatten_with_opts_option(merge_opts) {
+                Ok(f) => flat_json(&f),
+                Err(e) => json!({"err": format!("{e:#}")}),
+            };
+            j["env_flat"] = flat;
+            j["build_dep_modules"] = match build_deps {
+                Some(d) => json!(d.iter().map(|m| m.name.clone()).collect::<Vec<_>>()),
+                None => Value::Null,
+            };
+            j
+        })
+        .collect();
+    let tasks: Vec<Value> = tasks
+        .iter()
+        .map(|(name, t)| match t {
+            Ok(t) => json!([name, "ok", serde_json::to_value(t).unwrap_or(Value::Null)]),
+            Err(e) => json!([name, "err", e.to_string()]),
+        })
+        .collect();
+    dump(json!({
+        "builder": builder.name,
+        "app": app.name,
+        "app_context": app.context_name,
+        "decision": "built",
+        "disabled0": disabled.iter().collect::<Vec<_>>(),
+        "provided": provided,
+        "modules": mods,
+        "global_flat": flat_json(global_flat),
+        "outfile": outfile,
+        "tasks": tasks,
+    }));
+}
